@@ -8,6 +8,9 @@ open LiteFSVerif LiteFSVerif.Engine LiteFSVerif.Backup LiteFSVerif.Cluster
 structure St where
   eng : Eng := {}
   svc : List LTXFile := []      -- the service's files for "db", in name order
+  loop : Bool := false          -- the continuous sync loop runs (BackupDelay > 0)
+  cached : Option (Nat × Cks.Chk) := none   -- the loop's cached position of the service
+  dirty : Bool := false         -- a change since the loop's last pass
 
 def pos (svc : List LTXFile) : Nat × Cks.Chk :=
   match svc.getLast? with | some f => (f.maxTxid, f.post) | none => (0, 0)
@@ -55,36 +58,40 @@ def restore (e : Eng) (svc : List LTXFile) : Option Eng :=
       | .ok e3 => some { e3 with locks := e3.locks.unlockAll i, hwm := e3.posTxid }   -- the restore resets the high-water mark
       | .error (e3, _) => some { e3 with locks := e3.locks.unlockAll i }
 
-def sync (st : St) : St × String :=
+/-- one pass of `streamBackup` for "db": `believed` is the service position the caller works from
+    (freshly fetched for `SyncBackup`, cached by the continuous loop); returns the position the
+    loop caches afterwards -/
+def syncFrom (st : St) (believed : Nat × Cks.Chk) : St × String × Option (Nat × Cks.Chk) :=
   let e := st.eng
-  let remote := pos st.svc
   let loc := if e.hasDB then some (e.posTxid, e.posChk) else none
-  -- nothing on either side
-  if !e.hasDB && st.svc.isEmpty then (st, "ok") else
-  match syncDecide loc remote (fun t => (openLTX e t).isSome) with
-  | .nothing | .inSync => (st, "ok")
+  if !e.hasDB && st.svc.isEmpty then (st, "ok", none) else
+  let doRestore : St × String × Option (Nat × Cks.Chk) :=
+    match restore e st.svc with
+    | some e' => ({ st with eng := e' }, EngineD.withExit e' "ok", some (e'.posTxid, e'.posChk))
+    | none => (st, "err", none)
+  match syncDecide loc believed (fun t => (openLTX e t).isSome) with
+  | .nothing => (st, "ok", none)
+  | .inSync => (st, "ok", loc)
   | .snapshot =>
     (match snapshotFile e 0 with
-     | none => (st, "err")
+     | none => (st, "err", none)
      | some f =>
        match svcWrite st.svc f with
-       | some svc => ({ st with svc := svc, eng := { e with hwm := f.maxTxid } }, "ok")
-       | none => (st, "err"))
+       | some svc => ({ st with svc := svc, eng := { e with hwm := f.maxTxid } }, "ok", some (f.maxTxid, f.post))
+       | none => (st, "err", none))
   | .upload a b =>
     let files := (List.range (b + 1 - a)).filterMap fun i => openLTX e (a + i)
     (match compact files with
-     | none => (st, "err")
+     | none => (st, "err", none)
      | some f =>
        match svcWrite st.svc f with
-       | some svc => ({ st with svc := svc, eng := { e with hwm := f.maxTxid } }, "ok")
-       | none =>
-         match restore e st.svc with
-         | some e' => ({ st with eng := e' }, EngineD.withExit e' "ok")
-         | none => (st, "err"))
-  | .restore =>
-    (match restore e st.svc with
-     | some e' => ({ st with eng := e' }, EngineD.withExit e' "ok")
-     | none => (st, "err"))
+       | some svc => ({ st with svc := svc, eng := { e with hwm := f.maxTxid } }, "ok", some (f.maxTxid, f.post))
+       | none => doRestore)
+  | .restore => doRestore
+
+def sync (st : St) : St × String :=
+  let r := syncFrom st (pos st.svc)
+  (r.1, r.2.1)
 
 def step (st : St) (line : String) : St × String :=
   let f := words line
@@ -95,6 +102,16 @@ def step (st : St) (line : String) : St × String :=
     let (e, o) := EngineD.step st.eng line
     ({ st with eng := { e with backup := true } }, o)
   | ["backup-sync"] => if !st.eng.opened then (st, "bad-op") else sync st
+  | ["reopen-loop"] =>
+    let (e, o) := EngineD.step st.eng "reopen"
+    ({ st with eng := e, loop := true, cached := none, dirty := true }, o)
+  | ["backup-wait"] =>
+    if !st.loop then (st, "bad-op") else
+    if !st.dirty then (st, "ok") else
+    let believed := st.cached.getD (pos st.svc)
+    -- errors are only logged by the loop; it starts over with a freshly fetched position map
+    let (st', o, c) := syncFrom st believed
+    ({ st' with cached := if o.startsWith "err" then none else c, dirty := false }, "ok")
   | ["hwm"] => (st, if !st.eng.hasDB then "nodb" else s!"hwm={st.eng.hwm}")
   | ["svc"] => (st, showSvc st.svc)
   | ["svc-drop-last"] => if st.svc.isEmpty then (st, "empty") else ({ st with svc := st.svc.dropLast }, "ok")
@@ -113,6 +130,7 @@ def step (st : St) (line : String) : St × String :=
      | some f => if !EngineD.ltxSpecOK f then (st, "bad-op") else ({ st with svc := addLTX st.svc f }, "ok"))
   | _ =>
     let (e, o) := EngineD.step st.eng line
-    ({ st with eng := e }, o)
+    let moved := e.posTxid != st.eng.posTxid || e.posChk != st.eng.posChk || e.hasDB != st.eng.hasDB
+    ({ st with eng := e, dirty := st.dirty || moved }, o)
 
 end LiteFSVerif.Driver.BackupD
